@@ -20,7 +20,7 @@ META = {
             'those print float(\'inf\' | \'-inf\' | \'nan\'); (e) dict keys are iterated in the dict\'s own order, or through sorted() '
             'with a key that compares values first, with no other reordering; (f) True/False/None/... atoms; (g) a printer is '
             'registered for each of the twelve built-in literal types, bool separately from int; (i) no function of the printing '
-            'pipeline is memoised by an equality-keyed cache (0.0/-0.0, 1/True/1.0 would share one text); (k) the elements of a user's container are ordered only through the always-sortable key: no sorted / min / max / .sort over data drawn from the value without it (a TypeError there degrades the whole value to its plain repr, which is not evaluable for nested inf / nan).',
+            'pipeline is memoised by an equality-keyed cache (0.0/-0.0, 1/True/1.0 would share one text); (k) the elements of a container are ordered only through the always-sortable key: no sorted / min / max / .sort over data drawn from the value without it (a TypeError there degrades the whole value to its plain repr, which is not evaluable for nested inf / nan).',
     'note': 'escaping is the subject of C02; equality after evaluation, signed zero and float precision are delegated to the '
             'built-in __repr__',
     'technique': 'static analysis: abstract interpretation over a doc-shape domain (type scenarios), guard facts, def-use on the '
